@@ -1,6 +1,7 @@
 """C16 — numbers keep their exact value through every textual path.  See notes/C16.md."""
 import json
 import os
+import re
 import struct
 import subprocess
 import sys
@@ -429,6 +430,18 @@ def shrink_literal(h, t, ro, exp):
     return cur, cur_ro, cur_exp
 
 
+def corpus_lines(prefix):
+    """corpus/C16/<prefix>*.txt, comment lines dropped; the corpus always runs first"""
+    out = []
+    d = os.path.join(c.VERIF, "corpus", PID)
+    if os.path.isdir(d):
+        for fn in sorted(os.listdir(d)):
+            if fn.startswith(prefix):
+                with open(os.path.join(d, fn)) as fh:
+                    out += [ln.rstrip("\n") for ln in fh if ln.strip() and not ln.startswith("#")]
+    return out
+
+
 def parse_fields(line):
     d = {}
     for part in line.split(" "):
@@ -507,7 +520,9 @@ def main(argv):
 
     # ---------------------------------------------------------------- NUMTEXT: doubles
     xs, kinds = gen_doubles(rng, n_doubles)
-    xs = list(dict.fromkeys(xs))
+    cb = [int(ln, 16) for ln in corpus_lines("doubles")]
+    kinds["corpus"] = len(cb)
+    xs = list(dict.fromkeys(cb + xs))
     lines = c.harness_lines_resilient(h, "c16-num", [hx16(b) for b in xs])
     rust = [parse_fields(l) for l in lines]
     exprs = []
@@ -517,15 +532,10 @@ def main(argv):
     # ---------------------------------------------------------------- literal / to_number / JSON text streams
     lits = []
     seen = set()
-    corpus_dir = os.path.join(c.VERIF, "corpus", PID)
-    if os.path.isdir(corpus_dir):
-        for fn in sorted(os.listdir(corpus_dir)):
-            with open(os.path.join(corpus_dir, fn)) as fh:
-                for ln in fh:
-                    ln = ln.rstrip("\n")
-                    if ln and not ln.startswith("#") and ln not in seen:
-                        seen.add(ln)
-                        lits.append((ln, "corpus"))
+    for ln in corpus_lines("literals"):
+        if ln not in seen:
+            seen.add(ln)
+            lits.append((ln, "corpus"))
     for _ in range(20 * n_lits):
         if len(lits) >= n_lits:
             break
@@ -555,6 +565,7 @@ def main(argv):
 
     # ---------------------------------------------------------------- diff: doubles
     mism = {"model": [], "contract": []}
+    ref_differs = {"display": 0, "prec0": 0, "ryu": 0}
     fails = []          # property failures on the implementation: (bits, path, got)
     f17_hits = 0
     nontrivial = set()
@@ -571,16 +582,29 @@ def main(argv):
             nontrivial.add(b)
         if m:
             branch["nonfinite" if not finite else ("prec0" if m["RZ"] != "-" else "display")] += 1
-            # library contracts (the hypotheses of the theorems), tested against the references
+            # library contracts = exactly the hypotheses of the theorems, tested on this sample:
+            #   display_contract: [-]ddd[.ddd], sign = sign bit, and rn_decimal reads x back (the model's DN
+            #   is ref_str_parse of the Display text); prec0_contract: [-] + the exact integer;
+            #   JSON text: the exact (correctly rounded) reading of serde_json's text is x
+            dt, zt = c.unhex(f["D"]), c.unhex(f["Z"])
+            neg = (b >> 63) == 1
+            if finite:
+                if not re.fullmatch(r"-?[0-9]+(\.[0-9]+)?", dt) or dt.startswith("-") != neg or m["DN"] != xb:
+                    mism["contract"].append((xb, "Rust Display text violates display_contract (shape / sign / "
+                                                 "rn_decimal reading = %s)" % m["DN"], f["D"]))
+                if m["RZ"] != "-" and (not re.fullmatch(r"-?[0-9]+", zt) or zt.startswith("-") != neg
+                                       or Fraction(int(zt)) != Fraction(f_of(b))):
+                    mism["contract"].append((xb, "{:.0} text violates prec0_contract (not the exact integer)", f["Z"]))
+                if m["JE"] != xb:
+                    mism["contract"].append((xb, "serde_json's text does not denote x (exact reading %s)" % m["JE"],
+                                             f["J"]))
+            # stronger, informational: the executable reference printers reproduce the library texts exactly
             if m["RD"] != "T":
-                mism["contract"].append((xb, "Display text differs from the shortest round-trip reference", f["D"]))
+                ref_differs["display"] += 1
             if m["RZ"] == "F":
-                mism["contract"].append((xb, "{:.0} text differs from the exact integer", f["Z"]))
+                ref_differs["prec0"] += 1
             if finite and m["RJ"] != "T":
-                mism["contract"].append((xb, "serde_json text differs from the ryu reference", f["J"]))
-            if finite and m["DN"] != xb:       # the model's to_number is the reference reading of D
-                mism["contract"].append((xb, "Display text does not read back through rn_decimal (got %s)" % m["DN"],
-                                         f["D"]))
+                ref_differs["ryu"] += 1
             # the repo's own logic: model vs implementation
             jm = m["JE"] if exact_core else m["JL"]
             for what, key, rv in (("print_num text", "S", f["S"]), ("formatter text", "F", f["F"]),
@@ -763,6 +787,7 @@ def main(argv):
                                                      - len(js_mism))
     res.streams["NUMTEXT"] = {"doubles": len(xs), "finite": n_f, "kinds": kinds, "print_branch": branch,
                               "model_mismatches": len(mism["model"]), "contract_mismatches": len(mism["contract"]),
+                              "reference_printer_differs_from_library_text": ref_differs,
                               "impl_roundtrip_failures_unknown": len(fails),
                               "json_inprocess_1ulp_off_known_F17": f17_hits, "serde_float_roundtrip_core": exact_core}
     res.streams["LITERAL"] = {"texts": len(lits), "classes": {k: sum(1 for _, cl in lits if cl == k)
